@@ -91,6 +91,7 @@ type FuncSpec struct {
 	Assumed      bool // library contract
 	Inline       bool // closure executed in place at its call sites
 	Loops        map[int]*LoopSpec
+	RangeLoops   map[int]*LoopSpec // invariants for sync.Map.Range(closure) calls, by ordinal
 	Acquires     bool
 	Strings      bool // verify in SMT string theory
 	UseAxioms    []string
@@ -212,7 +213,7 @@ var fnKeywords = map[string]bool{
 	"requires": true, "ensures": true, "ensures_on_panic": true, "modifies": true, "nopanic": true,
 	"trusted": true, "assumed": true, "loop": true, "acquires": true, "atunlock": true,
 	"assert": true, "update": true, "inline": true, "strings": true, "effectfree": true,
-	"ensures_local": true, "callsite": true, "virtual": true, "precall": true,
+	"ensures_local": true, "callsite": true, "virtual": true, "precall": true, "rangeloop": true,
 }
 
 type specItem struct {
@@ -300,7 +301,7 @@ func parseFuncHeader(text string) (*FuncSpec, error) {
 		return nil, err
 	}
 	p := &parser{toks: toks, src: text}
-	fs := &FuncSpec{Loops: map[int]*LoopSpec{}}
+	fs := &FuncSpec{Loops: map[int]*LoopSpec{}, RangeLoops: map[int]*LoopSpec{}}
 	if p.isOp("(") {
 		p.next()
 		id := p.next()
@@ -765,6 +766,31 @@ func (sp *Spec) loadSpecFile(path, prefix, pkgPath, pkgName string, assumed bool
 				cur.Strings = true
 			case "acquires":
 				cur.Acquires = true
+			case "rangeloop":
+				m := regexp.MustCompile(`^(\d+)\s*:\s*(invariant|modifies)\s+(.*)$`).FindStringSubmatch(it.text)
+				if m == nil {
+					return fail(fmt.Errorf("rangeloop k: invariant e | modifies locs"))
+				}
+				k, _ := strconv.Atoi(m[1])
+				ls := cur.RangeLoops[k]
+				if ls == nil {
+					ls = &LoopSpec{}
+					cur.RangeLoops[k] = ls
+				}
+				if m[2] == "modifies" {
+					if err := parseLoopModifies(ls, m[3]); err != nil {
+						return fail(err)
+					}
+					break
+				}
+				c, err := parseClause(m[3], where)
+				if err != nil {
+					return err
+				}
+				if c.Label == "" {
+					c.Label = fmt.Sprintf("R%d", it.line)
+				}
+				ls.Invs = append(ls.Invs, c)
 			case "loop":
 				// loop k: invariant [label] e   |  loop k: decreases e
 				m := regexp.MustCompile(`^(\d+)\s*:\s*(invariant|decreases|modifies)\s+(.*)$`).FindStringSubmatch(it.text)
@@ -778,26 +804,8 @@ func (sp *Spec) loadSpecFile(path, prefix, pkgPath, pkgName string, assumed bool
 					cur.Loops[k] = ls
 				}
 				if m[2] == "modifies" {
-					ls.HasModifies = true
-					if strings.TrimSpace(m[3]) != "nothing" {
-						for _, loc := range splitTop(m[3], ',') {
-							if loc == "" {
-								continue
-							}
-							if strings.HasPrefix(loc, "cells(") || strings.Contains(loc, "::") {
-								ls.Modifies = append(ls.Modifies, ModLoc{Src: loc, All: loc})
-								continue
-							}
-							e, err := parseExpr(strings.TrimSuffix(loc, "[*]"))
-							if err != nil {
-								return fail(err)
-							}
-							ml := ModLoc{Src: loc, E: e}
-							if strings.HasSuffix(loc, "[*]") {
-								ml.All = "elems"
-							}
-							ls.Modifies = append(ls.Modifies, ml)
-						}
+					if err := parseLoopModifies(ls, m[3]); err != nil {
+						return fail(err)
 					}
 					break
 				}
@@ -843,4 +851,30 @@ func loadAllSpecs(repo string, libdir string, pkgDirs map[string]string, pkgName
 		}
 	}
 	return sp, nil
+}
+
+func parseLoopModifies(ls *LoopSpec, text string) error {
+	ls.HasModifies = true
+	if strings.TrimSpace(text) == "nothing" {
+		return nil
+	}
+	for _, loc := range splitTop(text, ',') {
+		if loc == "" {
+			continue
+		}
+		if strings.HasPrefix(loc, "cells(") || strings.Contains(loc, "::") {
+			ls.Modifies = append(ls.Modifies, ModLoc{Src: loc, All: loc})
+			continue
+		}
+		e, err := parseExpr(strings.TrimSuffix(loc, "[*]"))
+		if err != nil {
+			return err
+		}
+		ml := ModLoc{Src: loc, E: e}
+		if strings.HasSuffix(loc, "[*]") {
+			ml.All = "elems"
+		}
+		ls.Modifies = append(ls.Modifies, ml)
+	}
+	return nil
 }
